@@ -79,7 +79,10 @@ def main():
         dst = os.path.join(HOME, "seeded", a.keep_as)
         os.makedirs(dst, exist_ok=True)
         for f in ("patch.diff", "demo.py"):
-            shutil.copy(os.path.join(d, f), os.path.join(dst, f))
+            if os.path.abspath(d) != os.path.abspath(dst):
+                shutil.copy(os.path.join(d, f), os.path.join(dst, f))
+        if os.path.exists(os.path.join(dst, "meta.json")) and os.path.abspath(d) == os.path.abspath(dst):
+            meta = json.load(open(os.path.join(dst, "meta.json")))
         meta["confirmation"] = {k: out[k] for k in ("demo_unchanged_exit", "suite", "demo_changed_exit", "demo_changed_tail")}
         meta["ran"] = "tools/seedtest.py: demo on unchanged copy (exit 0), patch applied, pinned suite (passed), demo on changed copy (non-zero), then: " + ", ".join(
             "./check %s %s -> exit %d" % (p, a.tier, r["exit"]) for p, r in out["checks"].items())
